@@ -216,6 +216,11 @@ func (s *CommitStateDB) Finalise(deleteEmptyObjects bool) error {
 		case isDirty:
 			// Set all the dirty state storage items for the state object in the
 			// protocol and finally set the account in the account mapper.
+			if stateEntry.stateObject.freshStorage {
+				// the object replaced an account: drop what that one had stored
+				s.contractStore.DeleteStorage(stateEntry.address)
+				stateEntry.stateObject.freshStorage = false
+			}
 			stateEntry.stateObject.commitState()
 
 			// write any contract code associated with the state object
@@ -301,6 +306,7 @@ func (s *CommitStateDB) Reset() {
 func (s *CommitStateDB) CreateAccount(addr ethcmn.Address) {
 	newObj, prev := s.createObject(addr)
 	if prev != nil {
+		newObj.freshStorage = true
 		newObj.SetBalance(prev.account.Balance())
 	}
 }
